@@ -4,7 +4,8 @@
    token count) against the textbook grammar `derives`. *)
 From Coq Require Import List NArith ZArith Bool QArith Qcanon.
 From Okv Require Import Base.Maps Base.Dec Model.Amount Model.EvalSpec Model.ExprParse.
-From Okv Require Import Proofs.EvalProofs Proofs.EvalTyping Proofs.ExprParseProofs.
+From Okv Require Import Model.Book Model.Query.
+From Okv Require Import Proofs.EvalProofs Proofs.EvalTyping Proofs.ExprParseProofs Proofs.EvalQuery.
 Import ListNotations.
 Open Scope Qc_scope.
 
@@ -44,6 +45,20 @@ Theorem C08_single_amount_denotes : forall v d, denotes v d -> wf_dval d ->
   end.
 Proof. exact to_single_agrees. Qed.
 Print Assumptions C08_single_amount_denotes.
+
+(* Ledger::eval / `okane primitive eval`: on every processed ledger s - whatever display
+   precisions it declares with `commodity X` + `format` (s_fmt s) - the answer is the exact
+   amount the expression denotes (same commodities, same quantity in each), or the error the
+   denotation has; nothing is rounded *)
+Theorem C08_ledger_eval_exact : forall (s : bstate) (t : vexpr),
+  match ledger_eval s t, (match den_v t with inl d => d_to_amount d | inr e => inr e end) with
+  | inl a, inl (ks, f) =>
+      NoDup (keys a) /\ (forall c, In c (keys a) <-> In c ks) /\ (forall c, a_get a c = f c)
+  | inr e, inr e' => e = e'
+  | _, _ => False
+  end.
+Proof. exact ledger_eval_exact. Qed.
+Print Assumptions C08_ledger_eval_exact.
 
 Theorem C08_eval_total : forall e, (exists v, eval_e e = inl v) \/ (exists x, eval_e e = inr x).
 Proof. exact eval_total. Qed.
